@@ -517,32 +517,30 @@ impl Acc {
         if want {
             self.accepted += 1;
         }
-        match real(rules, rst, ev) {
+        let got = match real(rules, rst, ev) {
             Err(_) => {
                 if self.fp.len() < 20 {
                     self.fp.push(describe(vname, st, ev, json!("panic"), want));
                 }
+                return;
             }
-            Ok(got) if got != want => {
-                if self.f.len() < 25 {
-                    self.f.push(describe(vname, st, ev, json!(got), want));
-                }
-            }
-            Ok(got) => {
-                // C09: the decision depends only on the state entries named by auth_types_for_event
-                let content = serde_json::value::to_raw_value(&ev.content).unwrap();
-                let sender = OwnedUserId::try_from(ev.sender.as_str()).unwrap();
-                if let Ok(sel) = auth_types_for_event(&TimelineEventType::from(ev.ty.as_str()), &sender, ev.state_key.as_deref(), &content, rules) {
-                    let restricted: HashMap<(StateEventType, String), Pdu> = rst.iter().filter(|(k, _)| sel.contains(k)).map(|(k, v)| (k.clone(), v.clone())).collect();
-                    if restricted.len() != rst.len() {
-                        if let Ok(got2) = real(rules, &restricted, ev) {
-                            if got2 != got && self.fsel.len() < 25 {
-                                let mut d = describe(vname, st, ev, json!(got), want);
-                                d["selected"] = json!(sel.iter().map(|(t, k)| format!("({t}, {k:?})")).collect::<Vec<_>>());
-                                d["auth_check_over_selected_entries_only"] = json!(got2);
-                                self.fsel.push(d);
-                            }
-                        }
+            Ok(got) => got,
+        };
+        if got != want && self.f.len() < 25 {
+            self.f.push(describe(vname, st, ev, json!(got), want));
+        }
+        // C09 (whatever the rules say about the event): the decision depends only on the state entries named by auth_types_for_event
+        let content = serde_json::value::to_raw_value(&ev.content).unwrap();
+        let sender = OwnedUserId::try_from(ev.sender.as_str()).unwrap();
+        if let Ok(sel) = auth_types_for_event(&TimelineEventType::from(ev.ty.as_str()), &sender, ev.state_key.as_deref(), &content, rules) {
+            let restricted: HashMap<(StateEventType, String), Pdu> = rst.iter().filter(|(k, _)| sel.contains(k)).map(|(k, v)| (k.clone(), v.clone())).collect();
+            if restricted.len() != rst.len() {
+                if let Ok(got2) = real(rules, &restricted, ev) {
+                    if got2 != got && self.fsel.len() < 25 {
+                        let mut d = describe(vname, st, ev, json!(got), want);
+                        d["selected"] = json!(sel.iter().map(|(t, k)| format!("({t}, {k:?})")).collect::<Vec<_>>());
+                        d["auth_check_over_selected_entries_only"] = json!(got2);
+                        self.fsel.push(d);
                     }
                 }
             }
@@ -752,16 +750,24 @@ fn scenario_generic(vname: &str, rules: &AuthorizationRules, acc: &mut Acc) {
 }
 
 fn scenario_create(vname: &str, rules: &AuthorizationRules, acc: &mut Acc) {
-    let st = St { create: None, pl: None, join_rule: None, members: vec![] };
-    let rst = render_state(&st);
-    for room in ["!r:s", "!r:o", "!r"] {
-        for prev in [vec![], vec!["$p".to_string()]] {
-            for content in [json!({"creator": A}), json!({}), json!({"creator": B, "room_version": "1"})] {
-                let mut ev = base_ev("m.room.create", A, Some(""), content);
-                ev.room_id = room.into();
-                ev.prev_events = prev.clone();
-                ev.auth_events = vec![];
-                acc.check(vname, rules, &st, &rst, &ev);
+    // the decision for an m.room.create event depends on no state entry (its selection is empty): the same events over an
+    // empty state and over states that already hold a create event, power levels and members
+    let states = [
+        St { create: None, pl: None, join_rule: None, members: vec![] },
+        St { create: Some((B.into(), true, None)), pl: None, join_rule: None, members: vec![] },
+        St { create: Some((A.into(), true, None)), pl: Some(pl_with(&[(A, 0), (B, 100)], None, None, None)), join_rule: Some("invite".into()), members: members(&[(A, "ban"), (B, "join")]) },
+    ];
+    for st in &states {
+        let rst = render_state(st);
+        for room in ["!r:s", "!r:o", "!r"] {
+            for prev in [vec![], vec!["$p".to_string()]] {
+                for content in [json!({"creator": A}), json!({}), json!({"creator": B, "room_version": "1"})] {
+                    let mut ev = base_ev("m.room.create", A, Some(""), content);
+                    ev.room_id = room.into();
+                    ev.prev_events = prev.clone();
+                    ev.auth_events = vec![];
+                    acc.check(vname, rules, st, &rst, &ev);
+                }
             }
         }
     }
